@@ -84,6 +84,40 @@ func (e *emitter) block(ind int, b L) {
 	}
 }
 
+// setLn gives every statement of a block that is not printed (the expansion of sugar) the line of
+// the statement it stands for; statements that are printed get their own line afterwards.
+func setLn(b L, ln int) {
+	for _, x := range b {
+		m := x.(M)
+		m["ln"] = ln
+		for _, k := range []string{"body", "a", "b", "fin", "desugared"} {
+			if sub, ok := m[k].(L); ok {
+				setLn(sub, ln)
+			}
+		}
+		if cs, ok := m["catches"].(L); ok {
+			for _, c := range cs {
+				setLn(c.(M)["body"].(L), ln)
+			}
+		}
+	}
+}
+
+// assign prints `dst = call`, `dst := call` (declaring) or the bare call.
+func assign(s M, call string) string {
+	d, _ := s["dst"].(string)
+	if d == "" {
+		return call
+	}
+	if s["k"] == "gen" {
+		return d + " := " + call
+	}
+	if decl, _ := s["decl"].(bool); decl {
+		return d + " := " + call
+	}
+	return d + " = " + call
+}
+
 func label(l string) string {
 	if l == "" {
 		return ""
@@ -175,24 +209,25 @@ func (e *emitter) stmt(ind int, s M) {
 			e.block(ind+1, s["fin"].(L))
 		}
 		e.w(ind, "end")
-	case "call", "gen":
+	case "call", "gen", "acall":
 		c := fmt.Sprintf("%s%s(%s)", s["f"], e.suffix, args(s["args"].(L)))
-		if d := s["dst"].(string); d != "" {
-			c = d + " = " + c
+		if s["k"] == "acall" {
+			c += ".await_sync"
 		}
-		e.w(ind, c)
+		e.w(ind, assign(s, c))
 	case "callc":
-		c := fmt.Sprintf("%s.(%s)", s["c"], args(s["args"].(L)))
-		if d := s["dst"].(string); d != "" {
-			c = d + " = " + c
-		}
-		e.w(ind, c)
+		e.w(ind, assign(s, fmt.Sprintf("%s.(%s)", s["c"], args(s["args"].(L)))))
 	case "next":
-		c := fmt.Sprintf("%s.next", s["g"])
-		if d := s["dst"].(string); d != "" {
-			c = d + " = " + c
+		e.w(ind, assign(s, fmt.Sprintf("%s.next", s["g"])))
+	case "forgen":
+		head := ""
+		if l := s["label"].(string); l != "" {
+			head = "$" + l + ": "
 		}
-		e.w(ind, c)
+		setLn(s["desugared"].(L), e.line+1)
+		e.w(ind, fmt.Sprintf("%sfor %s in %s%s(%s)", head, s["var"], s["f"], e.suffix, args(s["args"].(L))))
+		e.block(ind+1, s["body"].(L))
+		e.w(ind, "end")
 	case "lam":
 		var ps []string
 		for _, p := range s["params"].(L) {
@@ -227,7 +262,11 @@ func (e *emitter) defs(p M) {
 		if d["gen"].(bool) {
 			star = "*"
 		}
-		head := fmt.Sprintf("def %s%s%s", star, n, e.suffix)
+		kw := "def "
+		if a, _ := d["async"].(bool); a {
+			kw = "async def "
+		}
+		head := fmt.Sprintf("%s%s%s%s", kw, star, n, e.suffix)
 		if len(ps) > 0 {
 			head += "(" + strings.Join(ps, ", ") + ")"
 		}
